@@ -24,6 +24,9 @@ func main() {
 		fmt.Fprintln(os.Stderr, "usage: c20 gen|exec|oracle ...")
 		os.Exit(2)
 	}
+	if os.Args[1] != "corpus" && os.Args[1] != "runcmd" {
+		enterNamespace() // private /etc when possible (host.go); returns in the process that does the work
+	}
 	switch os.Args[1] {
 	case "gen":
 		seed, _ := strconv.ParseUint(os.Args[3], 10, 64)
@@ -31,6 +34,8 @@ func main() {
 		gen(os.Args[2], seed, n, os.Args[5])
 	case "exec":
 		execOps(os.Args[2], os.Args[3], os.Args[4])
+	case "runcmd":
+		runcmd(os.Args[2], os.Args[3])
 	case "finding":
 		findings(os.Args[2])
 	case "corpus":
